@@ -374,7 +374,10 @@ func genQuerySource(t *rapid.T, module bool) string {
 	brk := rapid.SampledFrom([]int{0, 2, 3, 5, 9}).Draw(t, "qbreak")
 	if !module && rapid.IntRange(0, 3).Draw(t, "fromgen") == 0 {
 		pr := gen.Program(gen.Conf{Update: true, AltPat: true, Paths: true, Builtins: true, MaxNodes: 40}).Draw(t, "prog")
-		return pr.Src
+		if refParse(pr.Src).valid { // the shared generator is not guaranteed to print parseable text
+			return pr.Src
+		}
+		rec.Class("query/base/generated-program-not-parseable")
 	}
 	stages := rapid.SampledFrom([]int{1, 2, 3, 5, 8, 20, 60}).Draw(t, "stages")
 	return buildQuery(p, stages, chars, eol, module, brk)
@@ -384,6 +387,10 @@ func genQueryCase(t *rapid.T, modes []string) queryCase {
 	mode := rapid.SampledFrom(modes).Draw(t, "mode")
 	module := mode == "import" || mode == "include" || mode == "home" || mode == "lib" && rapid.IntRange(0, 4).Draw(t, "libmodule") == 0
 	src := genQuerySource(t, module)
+	if !refParse(src).valid { // never expected: the by-construction oracle needs a valid base
+		rec.Discard("query/base-not-valid: " + src[:min(len(src), 60)])
+		src = ".a | map(.b)"
+	}
 	bounds, _ := scanQuery(src)
 	c := queryCase{ExpStart: -1}
 	switch rapid.SampledFrom([]string{"illegal", "illegal", "illegal", "misplaced", "misplaced", "truncate", "truncate", "delete", "escape", "interp"}).Draw(t, "qfault") {
